@@ -75,137 +75,166 @@ def _controlling_tests(g, r):
     return out
 
 
-# site, exception, alternatives [(test template, [definition templates sharing its metavariables], label)], effect templates, what
-# (templates are structural: L_x matches any local name consistently, ANY_ any expression -- see hv/tmpl.py)
+# Guard table, stated over path summaries (hv/paths.py): every local is replaced by its definition on the path, so the
+# tests below do not depend on local names, guard-clause vs if/else layout, `a or b` vs two tests, or extracted helpers.
+#   site, exception, [(label, [option, ...])], effect templates, what
+#   option = [(test template, taken), ...]: for EACH listed test some path raising the exception takes it that way
+def _loop_guard(iter_text, pred):
+    """an option: the exception is raised inside a loop over iter_text under a test accepted by pred(test, taken, target)"""
+    def ok(paths):
+        for p in paths:
+            for i, (t, k) in enumerate(p.tests):
+                if isinstance(t, ast.Call) and u(t.func) == "in_loop_" and u(t.args[0]) == iter_text:
+                    tgt = t.args[1] if len(t.args) > 1 else None
+                    if any(pred(t2, k2, tgt) for t2, k2 in p.tests[i + 1:]):
+                        return True
+        return False
+    return ok
+
+
+def _unbuilt(t, taken, tgt):
+    # the flag is the second component of the (builder, built) pairs
+    return (not taken) and isinstance(t, ast.Name) and isinstance(tgt, ast.Tuple) and len(tgt.elts) == 2 and u(tgt.elts[1]) == t.id
+
+
 GUARDS = [
     ("hugr.build.dfg.DfBase._wire_up_port", "NoSiblingAncestor",
-     [("L_a is None", ["L_a = _ancestral_sibling(self.hugr, ANY_, node)"], "sibling-ancestor is None")],
+     [("sibling-ancestor is None", [[("_ancestral_sibling(self.hugr, ANY_, L_node) is not None", False)]])],
      ["self.hugr.add_link(ANY_, ANY_)", "self.add_state_order(ANY_, ANY_)"], "a wire whose source has no ancestor-sibling relation to its target"),
     ("hugr.build.cond_loop.Conditional._update_outputs", "ConditionalError",
-     [("outputs != self.parent_op._outputs", [], "case outputs differ from the established ones")], [], "cases disagree on their outputs"),
+     [("case outputs differ from the established ones", [[("L_o == self.parent_op._outputs", False)], [("self.parent_op._outputs == L_o", False)]])],
+     [], "cases disagree on their outputs"),
     ("hugr.build.cond_loop.Conditional.add_case", "ConditionalError",
-     [("RANGE", [], "case index outside 0..n-1"), ("L_b", ["(L_c, L_b) = self._case_builders[case_id]"], "case already built")],
-     ["self._case_builders[case_id] = ANY_"], "case index out of range / built twice"),
+     [("case index outside 0..n-1", [[("0 <= L_i < len(self._case_builders)", False)],
+                                      [("L_i < 0", True), ("L_i < len(self._case_builders)", False)],
+                                      [("0 <= L_i", False), ("L_i < len(self._case_builders)", False)],
+                                      [("L_i in range(len(self._case_builders))", False)]]),
+      ("case already built", [[("self._case_builders[L_i][1]", True)]])],
+     ["self._case_builders[L_i] = ANY_"], "case index out of range / built twice"),
     ("hugr.build.cond_loop.Conditional.__exit__", "ConditionalError",
-     [("not all((L_b for (ANY_, L_b) in self._case_builders))", [], "some case unbuilt")], [], "context left with unbuilt cases"),
+     [("some case unbuilt", [[("all((c1 for c0, c1 in self._case_builders))", False)], [("any((not c1 for c0, c1 in self._case_builders))", True)],
+                             [("all([c1 for c0, c1 in self._case_builders])", False)], _loop_guard("self._case_builders", _unbuilt)])],
+     [], "context left with unbuilt cases"),
     ("hugr.build.cfg.Cfg.branch_exit", "MismatchedExit",
-     [("self._exit_op._cfg_outputs != L_o", ["L_o = self._nth_outputs(ANY_)"], "exit row differs from the established one")],
+     [("exit row differs from the established one", [[("self._exit_op._cfg_outputs == self._nth_outputs(ANY_)", False)], [("self._nth_outputs(ANY_) == self._exit_op._cfg_outputs", False)]])],
      ["self._exit_op._cfg_outputs = ANY_"], "exit branch disagrees with the established exit type"),
     ("hugr.build.dfg.Function.set_outputs", "ValueError",
-     [("L_t != self.parent_op._outputs", ["L_t = [self._get_dataflow_type(L_w) for L_w in args]"], "wire types differ from the declared outputs")],
-     ["super().set_outputs(*args)"], "function outputs differ from the declared ones"),
+     [("wire types differ from the declared outputs", [[("[self._get_dataflow_type(c0) for c0 in L_args] == self.parent_op._outputs", False)],
+                                                       [("self._wire_types(L_args) == self.parent_op._outputs", False)],
+                                                       [("self.parent_op._outputs == [self._get_dataflow_type(c0) for c0 in L_args]", False)]])],
+     ["super().set_outputs(*L_args)"], "function outputs differ from the declared ones"),
     ("hugr.ops._CallOrLoad.__init__", "NoConcreteFunc",
-     [("instantiation is None", [], "missing instantiation"), ("len(signature.params) != len(type_args)", [], "argument count mismatch")],
+     [("missing instantiation", [[("instantiation is not None", False)]]),
+      ("argument count mismatch", [[("len(signature.params) == len(type_args)", False)], [("len(type_args) == len(signature.params)", False)]])],
      ["self.instantiation = instantiation"], "polymorphic function without matching instantiation / argument count"),
     ("hugr.build.dfg.DfBase._get_dataflow_type", "ValueError",
-     [("L_t is None", ["L_t = self.hugr.port_type(ANY_)"], "port has no dataflow type")], [], "a non-dataflow port used as a wire"),
+     [("port has no dataflow type", [[("self.hugr.port_type(ANY_) is not None", False)]])], [], "a non-dataflow port used as a wire"),
     ("hugr.build.tracked_dfg.TrackedDfg.tracked_wire", "IndexError",
-     [("L_t is None", ["L_t = self.tracked[index]"], "index untracked or out of range")], [], "an integer that names no tracked wire"),
-    ("hugr.ops._check_complete", "IncompleteOp", [("v is None", [], "value not set")], [], "an incomplete operation is serialized"),
+     [("index untracked or out of range", [[("self.tracked[L_i] is not None", False)]])], [], "an integer that names no tracked wire"),
+    ("hugr.ops._check_complete", "IncompleteOp", [("value not set", [[("L_v is not None", False)]])], [], "an incomplete operation is serialized"),
+    ("hugr.build.dfg.DfBase._fn_sig", "ValueError",
+     [("a non-function port", [[("isinstance(ANY_.port_kind(ANY_), tys.FunctionKind)", False)]])], [], "calling / loading something whose port 0 is not a function"),
 ]
 
 
-def _alt_matches(fn, test_node, alt) -> bool:
-    from ..tmpl import T, tfind, tmatch
-    tmpl, defs, _ = alt
-    if tmpl == "RANGE":
-        # a two-sided range test on the parameter case_id against len(self._case_builders)
-        s = u(test_node)
-        return "case_id" in s and "len(self._case_builders)" in s
-    for node, env in tfind(test_node, T(tmpl)):
-        if all(tfind(fn, T(d), env) for d in defs):
-            return True
-    # the template may be the whole test or its negation
-    return False
+def _exc_name(p) -> str:
+    e = p.value
+    if e is None:
+        return ""
+    e = e.func if isinstance(e, ast.Call) else e
+    return u(e).split(".")[-1]
 
 
 def r1_guards(ctx) -> None:
     prog = ctx.program
+    from ..tmpl import T, tmatch
     for qual, exc, alts, effects, what in GUARDS:
-        mod, cls, fn = _find(prog, qual)
-        g = CFG(real_body(fn))
-        rs = _raise_nodes(g, exc)
+        fn, mod, cls = ctx.locate(qual)
+        ps = ctx.paths(qual)
         short = qual.split(".", 1)[1]
+        rs = [p for p in ps if p.kind == "raise" and _exc_name(p) == exc]
         if not rs:
             ctx.fail("C13.R1", f"{short}: raises {exc}", mod.path, fn.lineno,
                      f"{short} no longer raises {exc}: {what} would be accepted silently", fn)
             continue
-        reach = g.reachable(0)
-        matched_alts = set()
-        guard_tests = set()
-        for r in rs:
-            if r not in reach:
-                ctx.fail("C13.R1", f"{short}: raise {exc} reachable", mod.path, g.stmt[r].lineno, f"the raise of {exc} is unreachable", g.stmt[r])
-                continue
-            tests = _controlling_tests(g, r)
-            for i, alt in enumerate(alts):
-                for t, lab in tests:
-                    if _alt_matches(fn, g.stmt[t], alt):
-                        matched_alts.add(i)
-                        guard_tests.add(t)
-        for i, alt in enumerate(alts):
-            ctx.check(i in matched_alts, "C13.R1", f"{short}: {exc} when {alt[2]}", mod.path, fn.lineno,
-                      f"no raise of {exc} in {short} is controlled by the test `{alt[0]}`" + (f" (with {alt[1]})" if alt[1] else "") + f": {what} is not refused", fn,
-                      detail=f"{len(rs)} raise site(s)")
-        # check-before-effect
+        for label, options in alts:
+            sat = False
+            for opt in options:
+                if callable(opt):
+                    sat = sat or opt(rs)
+                    continue
+                # "refused when": the test is taken that way on some path, and every path taking it that way ends in the exception
+                def refused(t, taken):
+                    hit = [p for p in ps if p.has_test(t, taken) is not None]
+                    return bool(hit) and all(p.kind == "raise" and _exc_name(p) == exc for p in hit)
+                sat = sat or all(refused(t, taken) for t, taken in opt)
+            shown = " | ".join(" and ".join(("" if k else "not ") + t for t, k in o) for o in options if not callable(o))
+            ctx.check(sat, "C13.R1", f"{short}: {exc} when {label}", mod.path, fn.lineno,
+                      f"no raise of {exc} in {short} is controlled by the test `{shown}`: {what} is not refused", fn,
+                      detail=f"{len(rs)} raising path(s)", found="; ".join(p.describe() for p in rs)[:300])
+        # check-before-effect: on no path that ends in the refusal has the guarded effect already happened,
+        # and the effect exists on some accepted path
         if effects:
-            from ..tmpl import T, tfind
-            eff = [n for n, s_ in g.stmt.items() if s_ is not None and g.kind.get(n) in ("stmt", "with") and any(tfind(s_, T(f)) or _stmt_is(s_, f) for f in effects)]
-            ctx.check(bool(eff), "C13.R1", f"{short}: effect site", mod.path, fn.lineno, f"the guarded effect ({effects}) was not found", fn)
-            bad = [e for e in eff if any(t in g.reachable(e) for t in guard_tests)]
-            ctx.check(not bad, "C13.R1", f"{short}: check before effect", mod.path, (g.stmt[bad[0]].lineno if bad else fn.lineno),
-                      f"in {short} the effect `{u(g.stmt[bad[0]])[:70] if bad else ''}` can happen before the {exc} check: the inconsistent construction is "
-                      "recorded first and refused afterwards (or not at all)", g.stmt[bad[0]] if bad else None, detail=f"{len(eff)} effect site(s) all after the checks")
+            def has_eff(p):
+                return [e for f in effects for e in p.find_effect(f)]
+            done = [p for p in ps if p.kind != "raise" and has_eff(p)]
+            ctx.check(bool(done), "C13.R1", f"{short}: effect site", mod.path, fn.lineno, f"the guarded effect ({effects}) was not found", fn)
+            bad = [(p, has_eff(p)) for p in rs if has_eff(p)]
+            where = bad[0][1][0][1] if bad else None
+            ctx.check(not bad, "C13.R1", f"{short}: check before effect", mod.path, getattr(where, "lineno", fn.lineno),
+                      f"in {short} the effect `{u(where)[:70] if bad else ''}` can happen before the {exc} check: the inconsistent construction is "
+                      "recorded first and refused afterwards (or not at all)", where, detail=f"{len(done)} accepting path(s) perform the effect after the checks")
     # ---- Block._wire_up_port: NotInSameCfg
-    mod, cls, fn = _find(prog, "hugr.build.cfg.Block._wire_up_port")
-    handlers = [h for h in ast.walk(fn) if isinstance(h, ast.ExceptHandler)]
-    ok = len(handlers) == 1 and u(handlers[0].type) == "NoSiblingAncestor"
+    q = "hugr.build.cfg.Block._wire_up_port"
+    fn, mod, cls = ctx.locate(q)
+    ps = ctx.paths(q)
+    exc_tests = [u(t) for p in ps for t, k in p.tests if isinstance(t, ast.Call) and u(t.func) == "except_"]
+    ok = bool(exc_tests) and set(exc_tests) == {"except_(NoSiblingAncestor)"}
     ctx.check(ok, "C13.R1", "build.cfg.Block._wire_up_port: falls back only on NoSiblingAncestor", mod.path, fn.lineno,
-              "the dominator-edge fallback may only catch NoSiblingAncestor from the ordinary wiring", fn)
+              "the dominator-edge fallback may only catch NoSiblingAncestor from the ordinary wiring", fn, found=str(sorted(set(exc_tests))))
     if ok:
-        h = handlers[0]
-        loops = [n for n in h.body if isinstance(n, ast.While)]
-        ok2 = len(loops) == 1
-        if ok2:
-            lp = loops[0]
-            raises = [s for s in ast.walk(lp) if isinstance(s, ast.Raise) and "NotInSameCfg" in u(s)]
-            guard = [n for n in ast.walk(lp) if isinstance(n, ast.If) and raises and raises[0] in n.body]
-            climbs = any(isinstance(s, ast.Assign) and u(s.targets[0]) == "src_parent" and "parent" in u(s.value) and "src_parent" in u(s.value) for s in lp.body)
-            ok2 = bool(raises) and bool(guard) and _mentions(guard[0].test, ["src_parent", "None"]) and "root" in u(guard[0].test) and climbs \
-                and "cfg_node" in u(lp.test) and "src_parent" in u(lp.test)
-            links = [i for i, s in enumerate(h.body) if "add_link(" in u(s) and not isinstance(s, ast.While)]
-            ok2 = ok2 and bool(links) and all(i > h.body.index(lp) for i in links) and not any("add_link(" in u(s) for s in ast.walk(lp))
+        fb = [p for p in ps if any(u(t) == "except_(NoSiblingAncestor)" for t, _ in p.tests)]
+        refusals = [p for p in fb if p.kind == "raise" and _exc_name(p) == "NotInSameCfg"]
+        linked = [p for p in fb if p.kind != "raise" and p.find_effect("self.hugr.add_link(ANY_, ANY_)")]
+        # the refusal is raised inside the climbing loop when the walk reaches None or the root
+        none_case = any(any(isinstance(t, ast.Compare) and isinstance(t.ops[0], ast.IsNot) and not k for t, k in p.tests) for p in refusals)
+        root_case = any(any("self.hugr.root" in u(t) and k for t, k in p.tests) for p in refusals)
+        in_loop = bool(refusals) and all(any(isinstance(t, ast.Call) and u(t.func) == "in_loop_" for t, _ in p.tests) for p in refusals)
+        ok2 = none_case and root_case and in_loop and bool(linked) and not any(p.find_effect("self.hugr.add_link(ANY_, ANY_)") for p in refusals)
+        for p in linked:
+            loops = [i for i, e in enumerate(p.effects) if isinstance(e, ast.While) and any(isinstance(x, ast.Raise) and "NotInSameCfg" in u(x) for x in ast.walk(e))]
+            links = [i for i, e, _ in p.find_effect("self.hugr.add_link(ANY_, ANY_)")]
+            climbs = [e for e in p.effects if isinstance(e, ast.While) and any(
+                isinstance(x, ast.Assign) and isinstance(x.targets[0], ast.Name) and f"[{x.targets[0].id}].parent" in u(x.value) for x in ast.walk(e))]
+            ok2 = ok2 and bool(loops) and bool(climbs) and all(i > loops[0] for i in links)
         ctx.check(ok2, "C13.R1", "build.cfg.Block._wire_up_port: NotInSameCfg before the fallback link", mod.path, fn.lineno,
                   "the fallback must climb from the source's parent to the enclosing CFG, raise NotInSameCfg when it reaches None or the root first, "
-                  "and add the link only after that walk succeeded", fn)
-    # ---- _fn_sig: non-function port
-    mod, cls, fn = _find(prog, "hugr.build.dfg.DfBase._fn_sig")
-    ms = [n for n in ast.walk(fn) if isinstance(n, ast.Match)]
-    ok = len(ms) == 1 and "port_kind" in u(fn)
-    if ok:
-        cases = ms[0].cases
-        fk = [c for c in cases if isinstance(c.pattern, ast.MatchClass) and u(c.pattern.cls).endswith("FunctionKind")]
-        wild = [c for c in cases if isinstance(c.pattern, ast.MatchAs) and c.pattern.pattern is None]
-        ok = len(fk) == 1 and len(wild) == 1 and any(isinstance(s, ast.Raise) and "ValueError" in u(s) for s in ast.walk(wild[0])) and len(cases) == 2
-    ctx.check(ok, "C13.R1", "build.dfg.DfBase._fn_sig: ValueError for a non-function port", mod.path, fn.lineno,
-              "calling / loading something whose port 0 is not a function must raise ValueError", fn)
+                  "and add the link only after that walk succeeded", fn, found="; ".join(p.describe() for p in fb)[:400])
     # ---- DfBase.add: integer wire in an untracked builder
-    mod, cls, fn = _find(prog, "hugr.build.dfg.DfBase.add")
+    q = "hugr.build.dfg.DfBase.add"
+    fn_o, mod, cls = ctx.locate(q)
+    fn = ctx.cfn(q)
     helper = [n for n in ast.walk(fn) if isinstance(n, ast.FunctionDef) and n is not fn]
-    raises_in_helper = helper and any(isinstance(s, ast.Raise) and "ValueError" in u(s) for s in ast.walk(helper[0]))
-    uses = [n for n in ast.walk(fn) if isinstance(n, ast.IfExp) and "isinstance(w, int)" in u(n.test)]
-    direct = [n for n in ast.walk(fn) if isinstance(n, ast.If) and "isinstance(" in u(n.test) and "int" in u(n.test) and any(isinstance(s, ast.Raise) and "ValueError" in u(s) for s in ast.walk(n))]
-    ok = bool(direct) or (bool(raises_in_helper) and bool(uses) and any(call_name(c) == helper[0].name for c in calls_in(uses[0])))
-    if ok and uses:
+    raises_in_helper = helper and any(isinstance(s_, ast.Raise) and "ValueError" in u(s_) for s_ in ast.walk(helper[0]))
+    uses = [n for n in ast.walk(fn) if isinstance(n, ast.IfExp) and tmatch(n.test.operand if isinstance(n.test, ast.UnaryOp) else n.test, T("isinstance(L_w, int)")) is not None]
+    direct = [n for n in ast.walk(fn) if isinstance(n, ast.If) and tmatch(n.test, T("isinstance(L_w, int)")) is not None
+              and any(isinstance(s_, ast.Raise) and "ValueError" in u(s_) for b in n.body for s_ in ast.walk(b))]
+    add_ops = calls_in(fn, "add_op")
+    ok = False
+    if direct and add_ops:
+        # the refusing loop comes before the node is created
+        ok = all(d.lineno < add_ops[0].lineno for d in direct)
+    elif raises_in_helper and uses and add_ops:
         e = uses[0]
-        # the raising branch is the int branch
         neg = isinstance(e.test, ast.UnaryOp)
         int_branch = e.orelse if neg else e.body
         ok = any(call_name(c) == helper[0].name for c in calls_in(int_branch))
-        feeds = any(isinstance(a, ast.Starred) and u(a.value) == "wires" for c in calls_in(fn, "add_op") for a in c.args)
-        ok = ok and feeds
-    ctx.check(ok, "C13.R1", "build.dfg.DfBase.add: ValueError for integer wires", mod.path, fn.lineno,
-              "a command holding integer indices given to an untracked builder must raise ValueError before the node is wired", fn)
+        # the checked sequence is what add_op receives
+        comp = [n for n in ast.walk(fn) if isinstance(n, (ast.GeneratorExp, ast.ListComp)) and e in list(ast.walk(n))]
+        ok = ok and bool(comp) and any(isinstance(a, ast.Starred) and (a.value is comp[0] or (isinstance(a.value, ast.Name) and any(
+            isinstance(s_, ast.Assign) and u(s_.targets[0]) == a.value.id and s_.value is comp[0] for s_ in ast.walk(fn)))) for a in add_ops[0].args)
+    ctx.check(ok, "C13.R1", "build.dfg.DfBase.add: ValueError for integer wires", mod.path, fn_o.lineno,
+              "a command holding integer indices given to an untracked builder must raise ValueError before the node is wired", fn_o)
 
 
 def r2_complete(ctx) -> None:
